@@ -31,16 +31,38 @@ class Recorder(object):
         self.atoms = []          # one entry per primitive variate: dict(family, loc, scale, ..., gen, key, pos, stage)
         self.script = script     # callable(atom_index) -> z, or None for real randomness
         self.stage = ['top']
+        self.slots = {}          # (stream key, position) -> index of the atom drawn there: a COPY of a generator (or a
+        #                          second generator made from the same integer seed) replays the same variates
 
     def emit(self, e, **kw):
         kw['e'] = e
         kw['stage'] = self.stage[-1]
         self.events.append(kw)
 
-    def z(self, n):
-        """script values for the next n atoms (indices len(atoms) .. +n)"""
-        start = len(self.atoms)
-        return np.array([self.script(start + i) for i in range(n)], dtype=float)
+    def z(self, n, key=None, pos=0):
+        """script values for n variates drawn at positions pos.. of the stream `key`: a position already drawn (by a copy
+        of the generator, or by another generator with the same seed) returns the SAME value"""
+        out = []
+        nxt = len(self.atoms)
+        for i in range(n):
+            slot = (tuple(key), pos + i) if key is not None else None
+            if slot is not None and slot in self.slots:
+                out.append(self.script(self.slots[slot]))
+            else:
+                out.append(self.script(nxt))
+                nxt += 1
+        return np.array(out, dtype=float)
+
+    def new_atom(self, a):
+        """appends an atom unless its stream slot was drawn before (then the earlier atom stands for both)"""
+        slot = (tuple(a['key']), a['pos'])
+        if a.get('gen', 0) != 0 and slot in self.slots:
+            self.events.append(dict(e='Replayed', key=list(a['key']), pos=a['pos'], stage=self.stage[-1]))
+            return self.slots[slot]
+        self.atoms.append(a)
+        if a.get('gen', 0) != 0:
+            self.slots[slot] = len(self.atoms) - 1
+        return len(self.atoms) - 1
 
 
 _REC = [None]
@@ -64,6 +86,18 @@ class RecGen(np.random.Generator):
         self._id = next(_gid)
         return self
 
+    def __deepcopy__(self, memo):
+        """a copy of a generator is a generator at the same position of the same stream (and is still recorded)"""
+        g = RecGen(type(self.bit_generator)())
+        g.bit_generator.state = self.bit_generator.state
+        g._key, g._pos, g._id = self._key, self._pos, next(_gid)
+        rec = _REC[0]
+        if rec is not None:
+            rec.emit('CopyGen', gen=g._id, of=self._id, key=list(self._key), pos=self._pos)
+        return g
+
+    __copy__ = lambda self: self.__deepcopy__({})
+
     def _log(self, family, shape, **params):
         rec = _REC[0]
         n = int(np.prod(shape)) if shape != () else 1
@@ -80,13 +114,13 @@ class RecGen(np.random.Generator):
             a = dict(family=family, gen=self._id, key=list(self._key), pos=self._pos + i, stage=rec.stage[-1])
             for k, v in bparams.items():
                 a[k] = float(v[i])
-            rec.atoms.append(a)
+            rec.new_atom(a)
 
     def normal(self, loc=0.0, scale=1.0, size=None):
         shape = _shape(size, loc, scale)
         rec, n = self._log('normal', shape)
         if rec is not None and rec.script is not None:
-            z = rec.z(n).reshape(shape) if shape != () else rec.z(1)[0]
+            z = rec.z(n, self._key, self._pos).reshape(shape) if shape != () else rec.z(1, self._key, self._pos)[0]
             self._atoms(rec, 'normal', shape, n, loc=loc, scale=scale)
             self._pos += n
             return np.asarray(loc) + np.asarray(scale) * z
@@ -98,7 +132,7 @@ class RecGen(np.random.Generator):
         shape = _shape(size, mean, sigma)
         rec, n = self._log('lognormal', shape)
         if rec is not None and rec.script is not None:
-            z = rec.z(n).reshape(shape) if shape != () else rec.z(1)[0]
+            z = rec.z(n, self._key, self._pos).reshape(shape) if shape != () else rec.z(1, self._key, self._pos)[0]
             self._atoms(rec, 'lognormal', shape, n, loc=mean, scale=sigma)
             self._pos += n
             return np.exp(np.asarray(mean) + np.asarray(sigma) * z)
@@ -111,11 +145,11 @@ class RecGen(np.random.Generator):
         rec, n = self._log('choice', shape)
         pop = int(a) if np.isscalar(a) else len(a)
         if rec is not None and rec.script is not None:
-            idx = (np.abs(rec.z(n)) * 7919).astype(int) % pop          # script value -> index
+            idx = (np.abs(rec.z(n, self._key, self._pos)) * 7919).astype(int) % pop          # script value -> index
             for i in range(n):
-                rec.atoms.append(dict(family='choice', gen=self._id, key=list(self._key), pos=self._pos + i,
-                                      stage=rec.stage[-1], n=pop, index=int(idx[i]),
-                                      p=None if p is None else [float(x) for x in p]))
+                rec.new_atom(dict(family='choice', gen=self._id, key=list(self._key), pos=self._pos + i,
+                                  stage=rec.stage[-1], n=pop, index=int(idx[i]),
+                                  p=None if p is None else [float(x) for x in p]))
             self._pos += n
             arr = np.arange(pop) if np.isscalar(a) else np.asarray(a)
             out = arr[idx.reshape(shape)] if shape != () else arr[idx[0]]
